@@ -107,7 +107,7 @@ def pipeline(fam, progs, outdir, module, cap=6000, pb=None, workers=6, max_diag=
 
 def cached(fam, progs, tier, module, cap, pb):
     import checks
-    chunk = checks.CHUNK if tier == "quick" else checks.CHUNK // 2
+    chunk = checks.CHUNK if tier == "quick" else checks.CHUNK // 4
     if len(progs) > chunk:
         parts = []
         skipped = 0
@@ -205,7 +205,7 @@ def run_c19(tier):
     vlib.build_wrap()
     import checks as _checks
     _checks.DEADLINE[0] = None if tier == "quick" else time.time() + float(os.environ.get("VERIF_THOROUGH_BUDGET_S", "1500"))
-    cap = 3000 if tier == "quick" else 30000
+    cap = 3000 if tier == "quick" else 10000
     summ = []
     problems = []
     from concurrent.futures import ThreadPoolExecutor
@@ -316,7 +316,7 @@ def run_c20(tier):
     vlib.build_wrap()
     import checks as _checks
     _checks.DEADLINE[0] = None if tier == "quick" else time.time() + float(os.environ.get("VERIF_THOROUGH_BUDGET_S", "1500"))
-    cap = 3000 if tier == "quick" else 30000
+    cap = 3000 if tier == "quick" else 10000
     from concurrent.futures import ThreadPoolExecutor
 
     def stage(st):
